@@ -2103,6 +2103,8 @@ def rule_text_sync(prog):
     # depends on the *line* alone (taken at the line break of the requested line, or when the line counter passes it)
     gi = cv.get("get_insertion_index")
     if gi is not None:
+        gi = dict(gi)
+        gi["body"] = hir.simplify(hir.inline_calls(prog, gi["body"], c, depth=2, only=lambda hb: c.file_of(hb["sp"]).rsplit(".", 1)[0].startswith(c.file_of(cv["get_insertion_index"]["sp"]).rsplit(".", 1)[0].rsplit("/", 1)[0])))
         pos_ids = set()
         for pp in gi["params"]:
             for bd in hir.pat_bindings(pp):
@@ -2266,6 +2268,20 @@ def rule_text_sync(prog):
                             ap_ = hir.adt_path(c, ad_["to"]) or ap_
                         if ap_.startswith("lsp4spl::"):
                             col_fields.add((ap_, e_["name"]))
+                    # (`let Self { line, character } = self; Position { line, character }`: the field reaches the Position through
+                    # a destructuring pattern)
+                    pl_ = hir.path_local(e_) if f["name"] == "character" else None
+                    if pl_:
+                        for l_ in hir.nodes(fb_["body"], "Let"):
+                            pt_ = hir.pat_strip(l_["pat"])
+                            if pt_.get("k") == "Struct" and str((pt_.get("res") or {}).get("p") or (pt_.get("res") or {}).get("k") or ""):
+                                for pf_ in pt_.get("fields") or []:
+                                    if any(bd["id"] == pl_["id"] for bd in hir.pat_bindings(pf_["pat"])):
+                                        ap_ = hir.adt_path(c, l_["init"]["t"]) if l_.get("init") is not None else None
+                                        for ad_ in (l_.get("init") or {}).get("adj") or []:
+                                            ap_ = hir.adt_path(c, ad_["to"]) or ap_
+                                        if ap_ and ap_.startswith("lsp4spl::"):
+                                            col_fields.add((ap_, pf_["name"]))
 
     def is_col_field_of_struct(l):
         if l.get("k") != "Field":
@@ -2279,6 +2295,10 @@ def rule_text_sync(prog):
         if fb is None:
             out.missing("position conversion function " + fn)
             continue
+        # (small helpers without a `return` of their own - methods of a struct that bundles the scan's counters, named conditions -
+        # are read in place; the others are looked at as bodies of their own)
+        fb = dict(fb)
+        fb["body"] = hir.simplify(hir.inline_calls(prog, fb["body"], c, depth=2, only=lambda hb: c.file_of(hb["sp"]).rsplit(".", 1)[0].startswith(c.file_of(cv[fn]["sp"]).rsplit(".", 1)[0].rsplit("/", 1)[0])))
         bodies_ = [fb]
         for call in hir.nodes(fb["body"]):
             if call.get("k") in ("Call", "MethodCall"):
@@ -2377,11 +2397,7 @@ def rule_text_sync(prog):
                                 if pl2["lit"].get("k") == "char":
                                     eol_chars.add(pl2["lit"].get("v"))
                 eol_site = eol_site or iff
-        if eol_site is not None:
-            # (no character literal in reach of the condition: the shape is not understood - the truth table below decides or abstains)
-            out.add("document::" + fn, "a line ends at a line feed and at a carriage return on its own", ({"\n", "\r"} <= eol_chars) if eol_chars else None,
-                    c.loc(eol_site["sp"]), "the line counter advances at %s only: in a document with lone carriage returns (one of LSP's three line "
-                    "endings) every position behind the first one addresses the wrong line" % sorted(eol_chars), ("utf16", "eol"))
+        table_decided = set()
         # (table) the conditions under which the scan ends a line / leaves at the end of the requested line are decided over the finite
         # set of cases that matter: current character in {LF, CR, other} x "the next character is LF".  A line is advanced exactly
         # at LF and at a CR that is not followed by LF; the clamp exit of get_insertion_index is taken at the *first* character of a
@@ -2396,6 +2412,9 @@ def rule_text_sync(prog):
             char_ids = set()
             for x in hir.nodes(bb["body"]):
                 pats = [x["pat"]] if x.get("k") in ("LetExpr", "ForLoop") and x.get("pat") else []
+                # (`let Some((i, c)) = chars.next() else { break };`)
+                if x.get("k") == "Let" and x.get("els") is not None and x.get("pat"):
+                    pats = [x["pat"]]
                 for pt in pats:
                     for bd in hir.pat_bindings(pt):
                         if c.tstr(bd["bt"]) == "char":
@@ -2470,7 +2489,8 @@ def rule_text_sync(prog):
                             return env["next_lf"] if e["op"] == "==" else (not env["next_lf"])
                     # `line == position.line`: we are on the requested line
                     if sc is None and any(f_.get("k") == "Field" and f_["name"] == "line" for f_ in hir.nodes(e)):
-                        return True if e["op"] == "==" else False
+                        on_ = env.get("on_line", True)
+                        return on_ if e["op"] == "==" else (not on_)
                     return None
                 if k == "Match" and "matches!" in (e.get("mx") or []):
                     # matches!(chars.peek(), Some((_, '\n')))
@@ -2490,6 +2510,16 @@ def rule_text_sync(prog):
                         return ev3(v_[0], env, v_[1], depth + 1) if v_ else None
                     if pl_ and pl_["id"] in defs_t and pl_["id"] not in mutated:
                         return ev3(defs_t[pl_["id"]], env, None, depth + 1)
+                    return None
+                if k == "MethodCall" and e["m"] in ("is_some_and", "map_or", "is_none_or") and peeks(e["recv"], sc) and e.get("args"):
+                    # `chars.peek().is_some_and(|&(_, next)| next == '\n')` / `.map_or(false, |..| ..)`
+                    cl_ = hir.strip(e["args"][-1])
+                    if cl_.get("k") == "Closure" and (e["m"] != "map_or" or hir.lit_value(hir.strip(e["args"][0])) in (False, "false")):
+                        cmps_ = [b_ for b_ in hir.nodes(cl_["body"], "Binary") if b_["op"] in ("==", "!=")]
+                        lits_ = [l2["lit"].get("v") for l2 in hir.nodes(cl_["body"], "Lit") if l2["lit"].get("k") == "char"]
+                        mts_ = [m2 for m2 in hir.nodes(cl_["body"], "Match") if "matches!" in (m2.get("mx") or [])]
+                        if len(cmps_) == 1 and lits_ == ["\n"] and not mts_ and hir.strip(cl_["body"]) is cmps_[0] and e["m"] != "is_none_or":
+                            return env["next_lf"] if cmps_[0]["op"] == "==" else (not env["next_lf"])
                     return None
                 if k in ("Call", "MethodCall"):
                     # a local helper holding (part of) the condition is evaluated in place of the call
@@ -2513,68 +2543,148 @@ def rule_text_sync(prog):
                     return ev3(hbody, env, sc2, depth + 1)
                 return None
 
-            for iff, parents_ in hir.walk(bb["body"]):
-                if iff.get("k") != "If":
-                    continue
-                then_ = iff["then"]
-                is_exit = any(r_.get("k") == "Ret" for r_ in hir.nodes(then_)) and fn == "get_insertion_index"
-                advances = any(a_.get("k") == "AssignOp" and a_["op"] == "+=" and hir.lit_value(hir.strip(a_["r"])) in ("1", 1) and
-                               "line" in (place(a_["l"]) or "") for a_ in hir.children(hir.strip(then_).get("b", {})) for a_ in hir.nodes(a_)) or \
-                    any(a_.get("k") == "AssignOp" and a_["op"] == "+=" and hir.lit_value(hir.strip(a_["r"])) in ("1", 1) and "line" in (place(a_["l"]) or "")
-                        for a_ in hir.nodes(then_))
-                mentions_char = any((hir.path_local(x) or {}).get("id") in char_ids for x in hir.nodes(iff["cond"])) or \
-                    any((hir.path_local(x) or {}).get("id") in defs_t and any((hir.path_local(y) or {}).get("id") in char_ids for y in hir.nodes(defs_t[(hir.path_local(x) or {}).get("id")]))
-                        for x in hir.nodes(iff["cond"]) if hir.path_local(x))
-                # the effective condition: enclosing branches included
-                conds = [(iff["cond"], True)]
-                chain_ = list(parents_) + [iff]
-                for i_, pr_ in enumerate(chain_[:-1]):
-                    if pr_.get("k") == "If":
-                        if any(x is chain_[i_ + 1] for x in [pr_.get("then")]):
-                            conds.append((pr_["cond"], True))
-                        elif pr_.get("else") is not None and chain_[i_ + 1] is pr_["else"]:
-                            conds.append((pr_["cond"], False))
-                mentions_char = mentions_char or any(
-                    any((hir.path_local(x) or {}).get("id") in char_ids for x in hir.nodes(cd)) for cd, _ in conds)
-                if not mentions_char or not (is_exit or advances):
-                    continue
+            # the sites: an `if` whose then-block advances the line counter / leaves the function, or an arm of a match on the character
+            # that does so directly (not inside a nested `if`, which is a site of its own).  The condition of a site is the conjunction
+            # of its own condition and of every enclosing branch / arm; the conditions of all sites of one kind are joined by `or`.
+            from . import charclass
+            cc_eval = charclass.Eval(prog, c)
 
-                def table():
-                    res = {}
-                    for ch in ("\n", "\r") + OTHERS:
-                        for nl in (True, False):
-                            vals = []
-                            for cd, pos in conds:
-                                v = ev3(cd, {"c": ch, "next_lf": nl})
-                                vals.append(v if pos else (None if v is None else (not v)))
-                            if any(v is False for v in vals):
-                                res[(ch, nl)] = False
-                            elif all(v is True for v in vals):
-                                res[(ch, nl)] = True
-                            else:
-                                res[(ch, nl)] = None
-                    return res
-                # (LSP: "\n", "\r\n" and "\r" are the line endings - the Unicode separators, NEL, VT and FF are ordinary characters of a line)
-                OTHERS = ("a", "\u2028", "\u2029", "\x85", "\x0b", "\x0c", " ", "\t")
-                tb = table()
-                if advances and not is_exit or (advances and is_exit and False):
-                    want = {("\n", True): True, ("\n", False): True, ("\r", False): True, ("\r", True): False}
-                    label = "the line counter advances exactly at a line feed and at a carriage return that is not followed by one"
-                elif is_exit:
-                    want = {("\n", True): True, ("\n", False): True, ("\r", False): True, ("\r", True): True}
-                    label = "a column behind the end of the line is clamped in front of the first character of the line break (LF, CR of CRLF, lone CR)"
+            def direct_nodes(root):
+                out_ = []
+                stack_ = [root]
+                while stack_:
+                    x_ = stack_.pop()
+                    out_.append(x_)
+                    for ch_ in hir.children(x_):
+                        if ch_.get("k") in ("If", "Match", "Closure"):
+                            continue
+                        stack_.append(ch_)
+                return out_
+
+            def is_advance(a_):
+                return a_.get("k") == "AssignOp" and a_["op"] == "+=" and hir.lit_value(hir.strip(a_["r"])) in ("1", 1) and "line" in (place(a_["l"]) or "")
+
+            def arm_cond(m_, arm, env):
+                """three-valued: does this arm of a match on the current character take the case env"""
+                for a_ in m_["arms"]:
+                    pm = cc_eval.pat_matches(a_["pat"], env["c"])
+                    g_ = True if a_.get("guard") is None else ev3(a_["guard"], env)
+                    if a_ is arm:
+                        if pm is False or g_ is False:
+                            return False
+                        return True if (pm is True and g_ is True) else None
+                    if pm is True and g_ is True:
+                        return False
+                    if pm is None or (pm is True and g_ is None):
+                        # an earlier arm may or may not take the case
+                        later = arm_cond_rest(m_, a_, arm, env)
+                        return False if later is False else None
+                return False
+
+            def arm_cond_rest(m_, after, arm, env):
+                seen_ = False
+                for a_ in m_["arms"]:
+                    if a_ is after:
+                        seen_ = True
+                        continue
+                    if not seen_:
+                        continue
+                    pm = cc_eval.pat_matches(a_["pat"], env["c"])
+                    g_ = True if a_.get("guard") is None else ev3(a_["guard"], env)
+                    if a_ is arm:
+                        if pm is False or g_ is False:
+                            return False
+                        return None
+                    if pm is True and g_ is True:
+                        return False
+                return False
+
+            sites = {"advance": [], "exit": []}
+            for iff, parents_ in hir.walk(bb["body"]):
+                if iff.get("k") == "If":
+                    then_ = iff["then"]
+                    is_exit = any(r_.get("k") == "Ret" for r_ in hir.nodes(then_)) and fn == "get_insertion_index"
+                    advances = any(is_advance(a_) for a_ in hir.nodes(then_))
+                    own = [("expr", iff["cond"], True)]
+                elif iff.get("k") == "Arm" and parents_ and parents_[-1].get("k") == "Match" and is_char(parents_[-1]["scrut"], None):
+                    body_ = iff["body"]
+                    dn_ = direct_nodes(body_)
+                    is_exit = any(r_.get("k") == "Ret" for r_ in dn_) and fn == "get_insertion_index"
+                    advances = any(is_advance(a_) for a_ in dn_)
+                    own = []      # (the arm itself is the last element of the chain below)
                 else:
                     continue
+                mentions_char = iff.get("k") == "Arm" or any((hir.path_local(x) or {}).get("id") in char_ids for x in hir.nodes(iff["cond"])) or \
+                    any((hir.path_local(x) or {}).get("id") in defs_t and any((hir.path_local(y) or {}).get("id") in char_ids for y in hir.nodes(defs_t[(hir.path_local(x) or {}).get("id")]))
+                        for x in hir.nodes(iff["cond"]) if hir.path_local(x))
+                # the effective condition: enclosing branches and arms included
+                conds = list(own)
+                chain_ = list(parents_) + [iff]
+                for i_, pr_ in enumerate(chain_[:-1]):
+                    nx_ = chain_[i_ + 1]
+                    if pr_.get("k") == "If":
+                        if nx_ is pr_.get("then"):
+                            conds.append(("expr", pr_["cond"], True))
+                        elif pr_.get("else") is not None and nx_ is pr_["else"]:
+                            conds.append(("expr", pr_["cond"], False))
+                    if pr_.get("k") == "Match" and nx_.get("k") == "Arm" and is_char(pr_["scrut"], None):
+                        conds.append(("arm", (pr_, nx_), True))
+                        mentions_char = True
+                mentions_char = mentions_char or any(
+                    kd_ == "expr" and any((hir.path_local(x) or {}).get("id") in char_ids for x in hir.nodes(cd)) for kd_, cd, _ in conds)
+                if not mentions_char or not (is_exit or advances):
+                    continue
+                if advances and not is_exit:
+                    sites["advance"].append((iff, conds))
+                elif is_exit:
+                    sites["exit"].append((iff, conds))
+
+            # (LSP: "\n", "\r\n" and "\r" are the line endings - the Unicode separators, NEL, VT and FF are ordinary characters of a line)
+            OTHERS = ("a", "\u2028", "\u2029", "\x85", "\x0b", "\x0c", " ", "\t")
+
+            def site_value(conds, env):
+                vals = []
+                for kd_, cd, pos in conds:
+                    v = ev3(cd, env) if kd_ == "expr" else arm_cond(cd[0], cd[1], env)
+                    vals.append(v if pos else (None if v is None else (not v)))
+                if any(v is False for v in vals):
+                    return False
+                return True if all(v is True for v in vals) else None
+
+            for kind_, lst in sites.items():
+                if not lst:
+                    continue
+                tb = {}
+                for ch in ("\n", "\r") + OTHERS:
+                    for nl in (True, False):
+                        # (the clamp exit is judged on the requested line, the line counter on every other line - on the requested
+                        # line the exit comes first)
+                        vs = [site_value(conds, {"c": ch, "next_lf": nl, "on_line": kind_ == "exit"}) for _, conds in lst]
+                        tb[(ch, nl)] = True if any(v is True for v in vs) else (False if all(v is False for v in vs) else None)
+                if kind_ == "advance":
+                    want = {("\n", True): True, ("\n", False): True, ("\r", False): True, ("\r", True): False}
+                    label = "the line counter advances exactly at a line feed and at a carriage return that is not followed by one"
+                else:
+                    want = {("\n", True): True, ("\n", False): True, ("\r", False): True, ("\r", True): True}
+                    label = "a column behind the end of the line is clamped in front of the first character of the line break (LF, CR of CRLF, lone CR)"
                 for o_ in OTHERS:
                     want[(o_, True)] = False
                     want[(o_, False)] = False
                 undec = any(v is None for v in tb.values())
                 ok_t = None if undec else tb == want
+                if kind_ == "advance" and ok_t is not None:
+                    table_decided.add(fn)
                 bad_cases = sorted("%s%s" % ({"\n": "LF", "\r": "CR", "a": "other"}.get(k_[0], "U+%04X" % ord(k_[0])), "+LF" if k_[1] else "") for k_ in want if tb.get(k_) is not None and tb[k_] != want[k_])
-                out.add("document::" + fn, label, ok_t, c.loc(iff["sp"]),
-                        "decided over {LF, CR, other} x {next is LF}: wrong for %s - for an overshooting column in a CRLF line the position "
+                out.add("document::" + fn, label, ok_t, c.loc(lst[0][0]["sp"]),
+                        "decided over {LF, CR, other} x {next is LF} (%d site(s)): wrong for %s - for an overshooting column in a CRLF line the position "
                         "lands between CR and LF (the next insertion tears the line break apart), or lines are counted differently from the client"
-                        % (", ".join(bad_cases) or "-"), ("utf16", "eol", "table"))
+                        % (len(lst), ", ".join(bad_cases) or "-"), ("utf16", "eol", "table"))
+        if eol_site is not None and fn not in table_decided:
+            # (the syntactic form of the clause, for shapes the truth table above cannot decide; no character literal in reach of the
+            # condition: undecided)
+            out.add("document::" + fn, "a line ends at a line feed and at a carriage return on its own", ({"\n", "\r"} <= eol_chars) if eol_chars else None,
+                    c.loc(eol_site["sp"]), "the line counter advances at %s only: in a document with lone carriage returns (one of LSP's three line "
+                    "endings) every position behind the first one addresses the wrong line" % sorted(eol_chars), ("utf16", "eol"))
         # (state) a flag that carries "the previous character was .." from one iteration to the next is assigned on every path through
         # the loop body - a branch that leaves it untouched makes it say something about an older character
         for bb in bodies_:
